@@ -80,7 +80,7 @@ func New(converterName, executablePath string) *Converter {
 	converter := Converter{
 		executablePath:    executablePath,
 		name:              converterName,
-		signal:            make(chan struct{}),
+		signal:            make(chan struct{}, 1),
 		started_processes: make(map[*Process]struct{}),
 	}
 
